@@ -51,8 +51,8 @@ TRUSTED = [
     "proved: every kernel class is called 2000 times (skeletonize 133) in one process against the plain build and the "
     "growth of glibc's mallinfo2 bytes-in-use must stay below 8 bytes per call (unchanged tree: 0-300 bytes in total); "
     "allocation pairing of heap.pxd is additionally a model fact (C19_heap_safe)",
-    "convex_hull_ijv: kernel_pre_hull is the overflow flag of C02's executable model evaluated on the recorded call "
-    "(per-instance discharge until C02's general no_overflow exists); index lists are repeat-free (C02's domain)",
+    "convex_hull_ijv: kernel_pre_hull = the kernel's asserts + a repeat-free index list (C02's domain); the write bound "
+    "then holds for all inputs (C19_convex_hull_write_bound, built on C02_hull_no_overflow)",
     "augmenting_row_reduction model: float comparisons are an oracle restricted to what finite costs can produce",
 ]
 ASSUMPTIONS = [
@@ -292,7 +292,7 @@ def _mk_spies(real):
                 idxs = np.asarray(indexes_in).ravel()
                 if ijv.ndim != 2 or ijv.shape[1] != 3 or ijv.shape[0] == 0 or (ijv < 0).any() or (idxs < 0).any():
                     _unmon("convex_hull_ijv", rejected=True)     # the asserts / max() of an empty array raise first
-                elif ijv.shape[0] > 1200:
+                elif ijv.shape[0] > 10000:
                     _unmon("convex_hull_ijv", too_large=True)
                 else:
                     _rec(K_HULL, "convex_hull_ijv", [K_HULL, [[int(v) for v in r] for r in ijv.tolist()], _ints(idxs)])
@@ -1038,8 +1038,8 @@ MANIFEST = {
                    "every recorded kernel call; the behaviour of the compiled object is observed (address-sanitised "
                    "build over the generators of C01-C08, C10, C15), not proved"),
     "level_note": ("not expressible in the model: malloc/realloc failure, int32 wrap of flat indices beyond 2^31 "
-                   "elements, the C++ containers of FastEMD, Cython buffer unpacking; not proved: augment's main loop "
-                   "(needs an augmenting path + mark invariants), the hull write bound in general (C02 no_overflow); "
+                   "elements, the C++ containers of FastEMD, Cython buffer unpacking; not proved: that augment's search "
+                   "always returns (aug_scan_nonempty: needs has_PM) and that its predecessor links form a chain; "
                    "leaks are observed by repeated calls (mallinfo2 growth), not proved"),
     "technique": "Coq index-safety theorems + run-time boundary monitoring with extracted checkers + ASan search",
     "design_ref": "DESIGN.md section 7, C19; section 8",
